@@ -317,7 +317,7 @@ func childRace(m *memory.Storage, beh behaviour) {
 	n := beh.Racers
 	bools := make([]bool, n)
 	ints := make([]int64, n)
-	var gen, done atomic.Int64
+	var gen, done, curRound, spin atomic.Int64
 	var key atomic.Value
 	key.Store("")
 	stop := false
@@ -342,6 +342,22 @@ func childRace(m *memory.Storage, beh behaviour) {
 					ints[i], _ = m.IncrBy(k, 1)
 				case "Append":
 					m.AppendToList(k, fmt.Sprintf("m%d", i))
+				case "ExpSet":
+					switch i % 4 {
+					case 0:
+						// let the readers' expiry checks go first: the window is "reader saw the entry expired,
+						// writer Sets, reader evicts"; vary the writer's delay by a few hundred nanoseconds
+						for j := 0; j < (int(curRound.Load())%8)*40; j++ {
+							spin.Add(1)
+						}
+						m.Set(k, "fresh", 0)
+					case 1:
+						m.GetExpiration(k)
+					case 2:
+						m.GetHash(k, "f")
+					case 3:
+						m.GetAllHash(k)
+					}
 				}
 				done.Add(1)
 			}
@@ -357,7 +373,13 @@ func childRace(m *memory.Storage, beh behaviour) {
 	deadline := time.Now().Add(time.Duration(beh.BudgetMs) * time.Millisecond)
 	for round := 0; round < beh.Rounds && (round%64 != 0 || time.Now().Before(deadline)); round++ {
 		k := fmt.Sprintf("race:%d", round)
+		if beh.Race == "ExpSet" {
+			// an expired entry that the sweeper has not removed yet
+			m.Set(k, "old", 150*time.Microsecond)
+			time.Sleep(250 * time.Microsecond)
+		}
 		key.Store(k)
+		curRound.Store(int64(round))
 		done.Store(0)
 		gen.Add(1)
 		for done.Load() < int64(n) {
@@ -380,6 +402,10 @@ func childRace(m *memory.Storage, beh behaviour) {
 		case "Append":
 			l, _ := m.GetList(k)
 			o.final = int64(len(l))
+		case "ExpSet":
+			if v, err := m.Get(k); err == nil && v == "fresh" {
+				o.final = 1
+			}
 		}
 		m.Delete(k)
 		counts[o]++
@@ -392,7 +418,15 @@ func childRace(m *memory.Storage, beh behaviour) {
 	fmt.Println(`{"ev":"ChildDone"}`)
 }
 
+// raceSem: spin-barrier race children need real CPUs (9 spinning goroutines each); more than a few
+// at once starve each other and the race windows are no longer hit.
+var raceSem = make(chan struct{}, 3)
+
 func driveConc(beh behaviour, raw []byte) *fw.Trace {
+	if beh.Race != "" {
+		raceSem <- struct{}{}
+		defer func() { <-raceSem }()
+	}
 	exe, err := os.Executable()
 	if err != nil {
 		return &fw.Trace{Status: fw.DriverError, Note: err.Error()}
@@ -645,8 +679,12 @@ func main() {
 			if env.Tier == "thorough" {
 				rounds, reps, budget = 300000, 4, 20000
 			}
-			for _, kind := range []string{"SetNX", "CAS", "IncrBy", "Append"} {
-				for r := 0; r < reps; r++ {
+			for _, kind := range []string{"SetNX", "CAS", "IncrBy", "Append", "ExpSet"} {
+				n := reps
+				if kind == "ExpSet" {
+					n = reps * 3 // the window (expiry check under the read lock, eviction under the write lock) is hit in <1% of rounds
+				}
+				for r := 0; r < n; r++ {
 					out = append(out, fw.MustJSON(behaviour{Backend: "memory", Race: kind, Racers: 8, Rounds: rounds, BudgetMs: budget, Rep: r + 1}))
 				}
 			}
